@@ -166,3 +166,9 @@ impl CKKSInfos for CKKSPlaintextCstZnx {
         self.meta.log_budget
     }
 }
+
+// Verification hook (dead without cfg(kani)): mounts the Kani harnesses of /verif/kx/ckks for the private constant encoders of this file.
+#[cfg(kani)]
+mod verif_kani {
+    include!(concat!(env!("POULPY_VERIF_KX"), "/ckks/cst.rs"));
+}
